@@ -7,6 +7,7 @@ from .origin import Origins, show, walk
 from .util import Vars, reaches_without
 from . import p_c01, p_c11
 
+TECHNIQUE = 'static analysis: ownership threading of the session state (no in-place mutation), flush-before-prompt cut queries, writer language, shared interpreter-loop and reader rules'
 LEVEL = "other"
 EXPLANATION = (
     "Persistence and pairing rules of the interactive interpreter decided on all CFG paths of interpreter::run: "
